@@ -7,7 +7,9 @@ import (
 
 	kvql "github.com/c4pt0r/kvql"
 
+	"kvqlverif/drive"
 	"kvqlverif/gen"
+	"kvqlverif/refstore"
 	"kvqlverif/rt"
 )
 
@@ -372,6 +374,7 @@ func (c15) Gates(tier string, m map[string]int64) []rt.Gate {
 		rt.GateMin("operators written directly after a closing quote", m, "operator_directly_after_a_closing_quote", 200),
 		rt.GateMin("BETWEEN with arithmetic trees as bounds", m, "between_with_arithmetic_bounds", 200),
 		rt.GateMin("filters naming a backquoted select field (printed form re-parsed under the same field list)", m, "named_field_filters", 200),
+		rt.GateMin("filters shown by Explain() run as statements of their own", m, "shown_filters", 200),
 		rt.GateMin("flat sequences compared", m, "flat_compared", 1000),
 		rt.GateMin("random trees compared", m, "tree_compared", 1000),
 		rt.GateMin("re-parse fixpoints checked", m, "fixpoints", 2000),
@@ -412,6 +415,8 @@ func (k c15) Run(c *rt.Ctx) {
 			k.namedFieldFixpoint(c)
 		case 2:
 			k.tightAfterLiteral(c)
+		case 3:
+			k.shownFilter(c)
 		default:
 			k.randomTree(c)
 		}
@@ -537,6 +542,99 @@ func (k c15) namedFieldFixpoint(c *rt.Ctx) {
 	}
 	if e2.String() != canon {
 		c.Violation("canonical-form-not-a-fixpoint", cl, func() rt.D { return rt.D{"query": q, "canonical": canon, "second_rendering": e2.String()} })
+	}
+}
+
+// shownFilter: "the filter shown by EXPLAIN is the filter executed". The statement is planned
+// (constants are folded on the way), the filter text shown by the scan line of Explain() is put
+// into a second statement, and both must select the same rows; the second statement's own shown
+// filter must be the same text. Constants are positive and their results not integral, so that
+// the shown literals are spellings the language has (no unary minus, no `3` for the float 3.0:
+// register B20).
+func (k c15) shownFilter(c *rt.Ctx) {
+	r := c.R
+	rec := c.Rec
+	odd := func() *gen.Node { return gen.Int(int64(2*r.Intn(5) + 1)) }
+	half := func() *gen.Node { return gen.Float([]string{"0.5", "1.5", "2.5", "3.5"}[r.Intn(4)]) }
+	konst := func() *gen.Node {
+		switch r.Intn(6) {
+		case 0:
+			return gen.Bin("+", odd(), half())
+		case 1:
+			return gen.Bin("+", half(), odd())
+		case 2:
+			return gen.Bin("*", odd(), half())
+		case 3:
+			return gen.Bin("+", gen.Bin("+", odd(), half()), gen.Int(int64(r.Range(1, 4))))
+		case 4:
+			return gen.Bin("+", gen.Int(int64(r.Range(1, 9))), gen.Int(int64(r.Range(1, 9))))
+		}
+		return gen.Bin("*", half(), odd())
+	}
+	atom := func() *gen.Node {
+		left := []*gen.Node{gen.Call("int", gen.Value()), gen.Call("strlen", gen.Key()), gen.Call("float", gen.Value()), gen.Bin("*", gen.Call("int", gen.Value()), gen.Int(2))}[r.Intn(4)]
+		op := []string{">", ">=", "<", "<="}[r.Intn(4)]
+		if r.Chance(1, 4) {
+			return gen.Bin(op, konst(), left)
+		}
+		if r.Chance(1, 4) {
+			return gen.Bin(op, gen.Bin("+", left, konst()), konst())
+		}
+		return gen.Bin(op, left, konst())
+	}
+	tree := atom()
+	switch r.Intn(4) {
+	case 0:
+		tree = gen.And(tree, atom())
+	case 1:
+		tree = gen.Or(tree, gen.Bin("!=", gen.Value(), gen.Str("zz")))
+	case 2:
+		tree = gen.Or(gen.Not(tree), atom())
+	}
+	var pairs []refstore.Pair
+	for i := 0; i < 12; i++ {
+		pairs = append(pairs, refstore.Pair{K: fmt.Sprintf("k%02d%s", i, strings.Repeat("x", i%4)), V: fmt.Sprint(i)})
+	}
+	mode := drive.Mode{Batch: r.Bool(), Size: 3, Cache: true}
+	q1 := "select key, value where " + gen.Print(tree)
+	o1 := drive.Run(q1, refstore.New(pairs), mode)
+	rec.Eval(1)
+	rec.DistinctS(q1)
+	if o1.Status() != "ok" {
+		rec.NotJudged("statement for the shown-filter comparison did not run: " + firstWords(stripPos(o1.ErrText())))
+		return
+	}
+	shown := ""
+	if len(o1.Explain) > 0 {
+		last := o1.Explain[len(o1.Explain)-1]
+		if i := strings.Index(last, "FullScanPlan{Filter = '"); i >= 0 && strings.HasSuffix(last, "'}") {
+			shown = last[i+len("FullScanPlan{Filter = '") : len(last)-2]
+		}
+	}
+	if shown == "" {
+		rec.NotJudged("no full-scan line with a filter in Explain()")
+		return
+	}
+	rec.Inc("shown_filters")
+	q2 := "select key, value where " + shown
+	o2 := drive.Run(q2, refstore.New(pairs), mode)
+	rec.Eval(1)
+	det := func() rt.D {
+		return rt.D{"query": q1, "explain": o1.Explain, "shown_filter": shown, "second_query": q2, "rows": fmt.Sprint(o1.Rows), "rows_of_shown_filter": fmt.Sprint(o2.Rows), "second_outcome": outcomeBrief(o2)}
+	}
+	if o2.Status() != "ok" {
+		c.Violation("shown-filter-does-not-run", firstWords(stripPos(o2.ErrText())), det)
+		return
+	}
+	if fmt.Sprint(o1.Rows) != fmt.Sprint(o2.Rows) {
+		c.Violation("shown-filter-is-not-the-executed-filter", "rows differ", det)
+		return
+	}
+	if len(o2.Explain) > 0 {
+		last := o2.Explain[len(o2.Explain)-1]
+		if !strings.Contains(last, "Filter = '"+shown+"'}") {
+			c.Violation("shown-filter-not-a-fixpoint", "second rendering differs", det)
+		}
 	}
 }
 
